@@ -12,6 +12,15 @@ mod map32;
 #[cfg(target_pointer_width = "64")]
 mod map64;
 
+/// Verification hooks: private instances of the maps and of the chunk-state mmapper.
+#[cfg(mmtk_verif)]
+pub mod verif_exports {
+    pub use super::map32::Map32;
+    #[cfg(target_pointer_width = "64")]
+    pub use super::map64::Map64;
+    pub use super::mmapper::csm::ChunkStateMmapper;
+}
+
 #[cfg(target_pointer_width = "32")]
 pub fn create_vm_map() -> Box<dyn VMMap + Send + Sync> {
     Box::new(map32::Map32::new())
